@@ -722,6 +722,13 @@ sqf::runtime::runtime::result sqf::runtime::runtime::execute(sqf::runtime::runti
 
 ::sqf::runtime::value sqf::runtime::runtime::evaluate_expression(std::string view, bool& success, bool request_halt)
 {
+    // like execute(): whatever the expression prints or sets uses the print mode (`toFixed`) of this runtime
+    struct decimals_scope
+    {
+        int* previous;
+        decimals_scope(int* active) : previous(sqf::types::d_scalar::decimals_active(active)) {}
+        ~decimals_scope() { sqf::types::d_scalar::decimals_active(previous); }
+    } decimals_scope_instance(&m_scalar_decimals);
     while (m_evaluate_halt);
     m_evaluate_halt = true;
     if (request_halt)
